@@ -9,7 +9,8 @@ EXPLANATION = (
     "or from the allocated column width; (C) width_minus is max(saturating_sub(width, prefix), min_width); "
     "(D) the prefix width subtracted is the display width of the prefix later attached; (E) every append to "
     "the current line is dominated by a width comparison or a flush; (F) stacked cells get the column width "
-    "unchanged; (G) footnote lines break against the renderer width under wrap_links.")
+    "unchanged; (G) footnote lines break against the renderer width under wrap_links; (H) the table shrink loop charges "
+    "one separator per column boundary over all columns, as the cell-width formula does.")
 NOT_DECIDED = "the bound display_width(line) <= w itself; column allocation arithmetic; hard-wrap split arithmetic"
 ASSUMPTIONS = []
 
@@ -21,6 +22,8 @@ def check(ctx):
     ctx.rule("C02-D", "the prefix that is subtracted is the prefix that is attached (display width of the same decorator string)")
     ctx.rule("C02-E", "every append to the current line is width-guarded (INV-LINE)")
     ctx.rule("C02-F", "stacked cells get the full column width unchanged; side-by-side cells Σcols + separators")
+    ctx.rule("C02-H", "a side-by-side table fits: the shrink loop exits only when Σ column widths + (n − 1) separators <= "
+             "renderer width, counting every column (the count into_cells uses for a spanning cell)")
     ctx.rule("C02-G", "footnote wrapping compares against self.width under wrap_links")
     ctx.guard("C02-A", widths.rule_wrap_width, "C02-A")
     ctx.guard("C02-B", widths.rule_sub_widths, "C02-B")
@@ -31,3 +34,4 @@ def check(ctx):
     ctx.guard("C02-E", widths.rule_line_pushes_guarded, "C02-E")
     ctx.guard("C02-F", widths.rule_stacked_cells_full_width, "C02-F")
     ctx.guard("C02-G", widths.rule_footnote_wrap, "C02-G")
+    ctx.guard("C02-H", widths.rule_min_size_matches_shrink, "C02-H")
